@@ -62,6 +62,7 @@ int sm4_ctr_sm3_hmac_main(int argc, char **argv)
 	FILE *outfp = stdout;
 	SM4_CTR_SM3_HMAC_CTX ctx;
 	uint8_t buf[4096];
+	uint8_t outbuf[4096 + 64]; // decryption output lags behind the input (the tag is held back): it must not share the input buffer
 	size_t inlen;
 	size_t outlen;
 
@@ -195,12 +196,12 @@ bad:
 				goto end;
 			}
 		} else {
-			if (sm4_ctr_sm3_hmac_decrypt_update(&ctx, buf, inlen, buf, &outlen) != 1) {
+			if (sm4_ctr_sm3_hmac_decrypt_update(&ctx, buf, inlen, outbuf, &outlen) != 1) {
 				error_print();
 				goto end;
 			}
 		}
-		if (fwrite(buf, 1, outlen, outfp) != outlen) {
+		if (fwrite(enc ? buf : outbuf, 1, outlen, outfp) != outlen) {
 			fprintf(stderr, "gmssl %s: output failure : %s\n", prog, strerror(errno));
 			goto end;
 		}
